@@ -112,7 +112,9 @@ static void hub(const Matrix4_<T>& M, const R3& R, const std::string& src, const
 		// conditioning of the angle extraction: entries of size rho carry absolute errors of size eps
 		long double tol = TOL_BACK * eps * (degen ? 1 : std::max(1.0L, 1 / rho));
 		if (!(d <= tol))
-			report<T>(degen ? (level ? "euler_degenerate_via_quaternion" : "euler_degenerate") : (level ? "euler_via_quaternion" : "euler_from_matrix"),
+			// signature classes: regular input; degenerate rotation with key element exactly +-1; degenerate rotation whose key
+			// element is rounded to a few ulps below 1 ("noisy key": the code's exact test |key| < 1 decides the branch)
+			report<T>(!degen ? (level ? "euler_via_quaternion" : "euler_from_matrix") : (fabs(proper ? M(b0, b0) : M(b0, b2)) < 1) ? "euler_gimbal_noisy_key" : "euler_degenerate",
 			          fmt("%s::eulerAngles(\"%s\")%s = %s", N<T>::m4(), cn.c_str(), via, deg3(el[0], el[1], el[2]).c_str()), d, tol, src, kase);
 		mx.see_lazy(sizeof(T) == 4 ? (degen ? "euler_back_degenerate.f" : "euler_back_regular.f") : (degen ? "euler_back_degenerate.d" : "euler_back_regular.d"), d / tol * TOL_BACK, [&] { return kase + " -> " + cn; });
 		if (!degen) mx.see_lazy(sizeof(T) == 4 ? "min_rho_regular_inv.f" : "min_rho_regular_inv.d", 1 / rho, [&] { return kase + " -> " + cn; });
